@@ -3,6 +3,79 @@
  * behaviours from finite alphabets (DESIGN 2.4, 3 C07). */
 #include "stream_explore.h"
 
+/* inflate, tiny-then-big on a LONG stream (200 000 bytes of log-like data, made by zlib): one input byte per call with ample output
+ * until 33 000 / 40 000 / 70 001 bytes have been delivered (the decoder's internal buffer then holds one window plus a remainder it
+ * has not shifted out yet), then ONE call with all remaining input whose output space is 32768-130 .. 32768 bytes (just below one
+ * window), then generous calls. Later matches reach back over the seam, so a window that was saved stale shows up as wrong bytes. */
+static void inflate_tiny_then_big(void)
+{
+	enum { XL = 200000 };
+	static const int cpus[] = { CPU_BASE, CPU_SSE, CPU_AVX2 };
+	static const uint32_t targets[] = { 33000, 40000, 70001 };
+	static struct ostream os[2];
+	static uint8_t *data;
+	if (!IST)
+		IST = g_persist(sizeof *IST, G_END);
+	if (!data) {
+		data = malloc(XL);
+		fill_pattern(data, XL, PAT_LOG, 77);
+		for (int gz = 0; gz < 2; gz++) {
+			z_stream z;
+			memset(&z, 0, sizeof z);
+			if (deflateInit2(&z, 6, Z_DEFLATED, gz ? 31 : -15, 8, Z_DEFAULT_STRATEGY) != Z_OK)
+				v_broken("deflateInit2");
+			os[gz].s = malloc(XL + 1000);
+			z.next_in = data; z.avail_in = XL; z.next_out = os[gz].s; z.avail_out = XL + 1000;
+			if (deflate(&z, Z_FINISH) != Z_STREAM_END)
+				v_broken("zlib deflate");
+			os[gz].slen = os[gz].true_end = z.total_out;
+			deflateEnd(&z);
+			os[gz].x = data; os[gz].xlen = XL; os[gz].crc_flag = gz ? ISAL_GZIP : ISAL_DEFLATE; os[gz].hdrlen = 0;
+			snprintf(os[gz].desc, sizeof os[gz].desc, "zlib level 6 of log:%d mode=%s", XL, gz ? "GZIP" : "DEFLATE");
+		}
+	}
+	uint64_t unit = 3900000;
+	static uint8_t *img;
+	if (!img)
+		img = malloc(sizeof *IST + sizeof ICUR + 64);
+	for (int gz = 0; gz < 2; gz++)
+		for (int ci = 0; ci < 3; ci++)
+			for (int ti = 0; ti < 3; ti++) {
+				if (!v_mine(unit++))
+					continue;
+				if (nfail > 20 || v_deadline_hit())
+					return;
+				inf_select(&os[gz], cpus[ci]);
+				/* phase 1 once; its end state is saved and every phase-2 size continues from a restored copy */
+				inf_reset();
+				int r = EX_NEXT, guard = 0;
+				while (r == EX_NEXT && ICUR.out_off < targets[ti] && guard++ < 400000)
+					r = inf_call(1, -1, NULL);
+				if (r != EX_NEXT) {
+					if (r == EX_VIOLATION)
+						nfail++;
+					continue;
+				}
+				inf_save(img);
+				g_strict_free = 1;
+				for (int N = 32768 - 130; N <= 32768; N++) {
+					inf_restore(img);
+					r = inf_call(-1, N, NULL);
+					if (r == EX_NEXT)
+						r = inf_finish_generously(NULL, 12);
+					v_count("tiny_then_big_runs", 1);
+					v_eval();
+					if ((r == EX_VIOLATION || r < 0) && !ICUR.tainted) {
+						char key[600];
+						snprintf(key, sizeof key, "inflate tiny-then-big %s", ctxdesc);
+						v_violation(key, "1-byte input calls until %u bytes were delivered, then all input with avail_out=%d, then generous calls", targets[ti], N);
+					}
+				}
+				g_strict_free = 0;
+				v_nontrivial(v_mix(0x7b16 + gz * 3 + ci, ti));
+			}
+}
+
 static void deflate_part(void)
 {
 	static const int cpus_q[] = { CPU_BASE, CPU_AVX2, CPU_AVX512G2 };
@@ -264,8 +337,10 @@ int main(int argc, char **argv)
 	v_init(argc, argv, "C07");
 	g_canary_span = 256;
 	gs_init();
-	if (!v_part || !strcmp(v_part, "inflate"))
+	if (!v_part || !strcmp(v_part, "inflate")) {
 		inflate_part();
+		inflate_tiny_then_big();
+	}
 	if (!v_part || !strcmp(v_part, "deflate"))
 		deflate_part();
 	if (v_part && !strcmp(v_part, "stored-fallback"))
